@@ -920,7 +920,23 @@ class Executor:
         c = re.sub(r'\b(?:std|core|alloc)::(?:[a-z_0-9]+::)*(?=[A-Z])', '', c)   # std module paths before type/trait names
         if callee.startswith('move ') or callee.startswith('copy '):
             raise Unsupported('indirect call ' + callee)
-        user = self.resolver.resolve_fn(self, callee) if self.resolver else None
+        amb = None
+        try:
+            user = self.resolver.resolve_fn(self, callee) if self.resolver else None
+        except Unsupported as e:
+            user, amb = None, e
+        if user is None and self.resolver and args:
+            # a call through a type parameter (`<T as Trait>::m`, `<X as From<T>>::from`): dispatch on the value's own type
+            gm = re.search(r'(?:^<|From<|Into<)([A-Z]\w?)(?= as |>>)', callee)
+            if gm and gm.group(1) not in getattr(self, 'type_env', {}):
+                a0 = dv(args[0])
+                dyn = a0.ty if isinstance(a0, Adt) and a0.ty not in ('closure', 'Coroutine', 'Pin') else \
+                    (a0.payload.split('::')[-1] if isinstance(a0, Opaque) and a0.tag == 'const' and isinstance(a0.payload, str) else None)
+                if dyn:
+                    callee2 = re.sub(r'\b' + gm.group(1) + r'\b', dyn, callee)
+                    user = self.resolver.resolve_fn(self, callee2)
+                    if user is not None: callee, amb = callee2, None
+        if amb is not None: raise amb
         for mdl in self.models:
             pat, fn = mdl[0], mdl[1]
             if re.search(pat, c):
@@ -937,6 +953,14 @@ class Executor:
                     args = [a.cell.v if isinstance(a, Ref) and isinstance(a.cell.v, Ref) else a for a in args]
             if user in self.summarize:
                 return self.call_summarized(user, args)
+            env = self.resolver.env_for.get(callee) if self.resolver else None
+            if env:
+                old = getattr(self, 'type_env', {})
+                self.type_env = dict(old, **env)
+                try:
+                    return self.call_fn(user, args)
+                finally:
+                    self.type_env = old
             return self.call_fn(user, args)
         raise Unsupported(f'unmodelled call {callee} (in {" <- ".join(reversed(self.cur_fn[-3:])) if self.cur_fn else "?"})')
 
